@@ -98,6 +98,10 @@ func (r *SecRun) forge(method jwt.SigningMethod, key any, sub string, roles []st
 	claims := security.CustomClaims{Roles: roles}
 	claims.RegisteredClaims = jwt.RegisteredClaims{ExpiresAt: jwt.NewNumericDate(exp), Issuer: iss, Audience: jwt.ClaimStrings{aud}, Subject: sub}
 	tok := jwt.NewWithClaims(method, claims)
+	if roles == nil {
+		// no roles claim at all (not "roles": null)
+		tok = jwt.NewWithClaims(method, jwt.MapClaims{"exp": exp.Unix(), "iss": iss, "aud": []string{aud}, "sub": sub})
+	}
 	if method == jwt.SigningMethodNone {
 		s, _ := tok.SignedString(jwt.UnsafeAllowNoneSignatureType)
 		return s
@@ -137,6 +141,9 @@ func (r *SecRun) token(kind string) (tok string, valid bool, admin bool, subject
 			return t, false, false, "client1"
 		}
 		return r.forge(jwt.SigningMethodRS256, r.nodeKey, "client1", []string{"client"}, node, node, time.Now().Add(-time.Second)), false, false, "client1"
+	case "noroles":
+		// a valid token of client1 that carries no roles claim at all (as an identity provider's tokens do)
+		return r.forge(jwt.SigningMethodRS256, r.nodeKey, "client1", nil, node, node, in10), true, false, "client1"
 	case "wrongkey":
 		return r.forge(jwt.SigningMethodRS256, r.c2Key, "client1", []string{"admin"}, node, node, in10), false, true, "client1"
 	case "wrongiss":
